@@ -76,7 +76,10 @@ type StoreSpec struct {
 
 // Op is one step; arguments are small indices resolved against the live state.
 //
-//	store   A=store index, B=0 up | 1 lagging (30 min) | 2 down (2 h) | 3 tombstone
+//	store   A=store index, B=liveness: 0 heartbeats now | 1 lagging (30 min) | 2 dead (2 h) | 3 = mstate bury
+//	mstate  A=store index, B=membership: 0 back Up (only from Offline, not physically destroyed) | 1 Offline
+//	        (store delete) | 2 Offline + physically destroyed | 3 bury (Offline -> Tombstone; an Up store cannot be buried)
+//	dcstate like mstate for the stores of dc A (0 all | 1 primary | 2 dr | 3 neither), C=how many (0 all)
 //	dc      A=0 all stores | 1 primary dc | 2 dr dc | 3 neither (by the current label key), B as above (0..2), C=how many (0 all)
 //	report  regions [A,B) in permille of the sorted region list except Skip picks report St (0 unknown, 1 simple
 //	        majority, 2 integrity over label) with state id ID (0 current, 1 stale = served earlier (pick C), 2 zero)
@@ -170,7 +173,11 @@ func genSkips(t *rapid.T) []int {
 }
 
 func genStoreOp(t *rapid.T) Op {
-	return Op{K: "store", A: rapid.IntRange(0, 9).Draw(t, "store"), B: w(t, "sstate", 30, 15, 45, 10)}
+	return Op{K: "store", A: rapid.IntRange(0, 9).Draw(t, "store"), B: w(t, "sstate", 35, 15, 50)}
+}
+
+func genMemberStateOp(t *rapid.T) Op {
+	return Op{K: "mstate", A: rapid.IntRange(0, 9).Draw(t, "store"), B: w(t, "mstate", 25, 40, 15, 20)}
 }
 
 func genConfigOp(t *rapid.T) Op {
@@ -190,7 +197,7 @@ func genTick(t *rapid.T) Op { return Op{K: "tick", A: w(t, "nticks", 80, 15, 5)}
 
 // flap phase: stores of a dc go down (and come back), ticks in between
 func genFlap(t *rapid.T, losing int) []Op {
-	switch w(t, "flap", 36, 20, 9, 12, 6, 4, 2, 3, 2, 2, 2, 2, 2, 4, 4) {
+	switch w(t, "flap", 36, 20, 9, 12, 6, 4, 2, 3, 2, 2, 2, 2, 2, 4, 4, 5, 8) {
 	case 0:
 		// mostly: the dc with fewer replicas loses all its stores (the other one keeps a majority)
 		op := Op{K: "dc", A: losing, B: 2, C: w(t, "howmany", 75, 15, 10)}
@@ -232,16 +239,23 @@ func genFlap(t *rapid.T, losing int) []Op {
 	case 14:
 		// the stores that belong to neither dc fail: must not count for any dc
 		return []Op{{K: "dc", A: 3, B: 2, C: 0}, genTick(t)}
-	default:
-		// a store that failed is removed for good (tombstone), then the manager looks again
+	case 15:
+		return []Op{genMemberStateOp(t)}
+	case 16:
+		// the operator deletes a dead store: dead and Offline (still a failed store), then the manager looks
 		st := rapid.IntRange(0, 9).Draw(t, "store")
-		return []Op{{K: "store", A: st, B: 2}, {K: "store", A: st, B: 3}, genTick(t)}
+		return []Op{{K: "store", A: st, B: 2}, {K: "mstate", A: st, B: 1 + w(t, "destroyed", 70, 30)}, genTick(t)}
+	default:
+		// a dead store is deleted and later buried (Tombstone: no longer a failed store)
+		st := rapid.IntRange(0, 9).Draw(t, "store")
+		return []Op{{K: "store", A: st, B: 2}, {K: "mstate", A: st, B: 1 + w(t, "destroyed", 70, 30)}, genTick(t),
+			{K: "mstate", A: st, B: 3}, genTick(t)}
 	}
 }
 
 // report phase: most regions report the current state id, ticks in between
 func genReport(t *rapid.T) []Op {
-	switch w(t, "report", 30, 28, 10, 5, 5, 4, 4, 6, 3, 1, 1, 2, 3) {
+	switch w(t, "report", 30, 28, 10, 5, 5, 4, 4, 6, 3, 1, 1, 2, 3, 2) {
 	case 0:
 		return []Op{{K: "report", A: 0, B: 1000, St: 2, ID: 0, Skip: genSkips(t)}}
 	case 1:
@@ -276,8 +290,10 @@ func genReport(t *rapid.T) []Op {
 		return []Op{{K: "restart"}}
 	case 11:
 		return []Op{{K: "failrepl", A: rapid.IntRange(1, 3).Draw(t, "n")}}
-	default:
+	case 12:
 		return []Op{genConfigOp(t)}
+	default:
+		return []Op{genMemberStateOp(t)}
 	}
 }
 
@@ -331,11 +347,18 @@ func genCase(t *rapid.T) Case {
 	for r := 0; r < rounds; r++ {
 		if w(t, "outage", 20, 80) == 1 {
 			add(Op{K: "dc", A: losing, B: 2, C: 0}, genTick(t))
+			if w(t, "deleteDead", 60, 40) == 1 {
+				// the dead stores are deleted by the operator: Offline, still dead, still failed
+				add(Op{K: "dcstate", A: losing, B: 1 + w(t, "destroyed", 70, 30), C: w(t, "howmany", 70, 30)}, genTick(t))
+			}
 		}
 		for i, n := 0, rapid.IntRange(0, 3).Draw(t, "nflap"); i < n; i++ {
 			add(genFlap(t, losing)...)
 		}
 		if w(t, "storesBack", 15, 85) == 1 {
+			if w(t, "membersBack", 50, 50) == 1 {
+				add(Op{K: "dcstate", A: 0, B: 0, C: 0})
+			}
 			add(Op{K: "dc", A: 0, B: 0, C: 0}, genTick(t))
 		}
 		for i, n := 0, rapid.IntRange(1, 7).Draw(t, "nreport"); i < n; i++ {
@@ -356,8 +379,32 @@ func genCase(t *rapid.T) Case {
 type mstore struct {
 	id   uint64
 	l    [2]int
-	hb   int // 0 up, 1 lagging 30 min, 2 down 2 h
+	hb   int // liveness: 0 heartbeats now, 1 lagging 30 min, 2 dead for 2 h
+	mem  int // membership: 0 Up, 1 Offline, 2 Offline and physically destroyed
 	tomb bool
+}
+
+// setMem applies a membership change the way RaftCluster.RemoveStore/UpStore/buryStore allow it.
+func (s *mstore) setMem(b int) {
+	if s.tomb {
+		return
+	}
+	switch b {
+	case 0:
+		if s.mem == 1 {
+			s.mem = 0
+		}
+	case 1:
+		if s.mem == 0 {
+			s.mem = 1
+		}
+	case 2:
+		s.mem = 2
+	case 3:
+		if s.mem != 0 {
+			s.tomb = true
+		}
+	}
 }
 
 type mregion struct {
@@ -448,6 +495,8 @@ func (m *model) failed(c Cfg) (fp, fd int) {
 		if s.tomb {
 			continue
 		}
+		// failed = not Tombstone and silent for at least wait-store-timeout, whatever the membership state
+		// (an Offline store that is dead still holds its replicas).
 		// wait-store-timeout 1 h: only a store silent for 2 h has failed; 0 s: every store has
 		if c.StoreTO == 0 || s.hb == 2 {
 			switch s.l[c.Key] {
@@ -621,8 +670,13 @@ func (f *fixture) putStore(s *mstore) {
 	}
 	hb := time.Now().Add(-[]time.Duration{0, 30 * time.Minute, 2 * time.Hour}[s.hb])
 	meta := &metapb.Store{Id: s.id, Labels: labels}
-	if s.tomb {
+	switch {
+	case s.tomb:
 		meta.State = metapb.StoreState_Tombstone
+		meta.PhysicallyDestroyed = s.mem == 2
+	case s.mem != 0:
+		meta.State = metapb.StoreState_Offline
+		meta.PhysicallyDestroyed = s.mem == 2
 	}
 	f.cl.PutStore(core.NewStoreInfo(meta, core.SetLastHeartbeatTS(hb)))
 }
@@ -1050,11 +1104,32 @@ func runCase(c Case) (vkit.Info, error) {
 				continue
 			}
 			if op.B == 3 {
-				s.tomb = true
+				s.setMem(3)
 			} else {
 				s.hb = op.B % 3
 			}
 			f.putStore(s)
+		case "mstate":
+			s := m.stores[op.A%len(m.stores)]
+			s.setMem(op.B)
+			f.putStore(s)
+		case "dcstate":
+			n := 0
+			for _, s := range m.stores {
+				lv := s.l[m.cfg.Key]
+				if lv == 0 {
+					lv = 3
+				}
+				if s.tomb || (op.A != 0 && lv != op.A) {
+					continue
+				}
+				if op.C > 0 && n >= op.C {
+					break
+				}
+				s.setMem(op.B)
+				f.putStore(s)
+				n++
+			}
 		case "dc":
 			n := 0
 			for _, s := range m.stores {
@@ -1262,6 +1337,14 @@ func runCase(c Case) (vkit.Info, error) {
 				cx := opCtx{kind: "tick", cfg: m.cfg, desc: fmt.Sprintf("%s (tick %d)", desc, k)}
 				f.kv.TakeLog()
 				f.rep.offers = nil
+				for _, s := range m.stores {
+					if lv := s.l[m.cfg.Key]; !s.tomb && s.mem != 0 && s.hb == 2 && (lv == 1 || lv == 2) {
+						r.class("tick-with-dead-offline-store")
+					}
+					if s.tomb {
+						r.class("tick-with-tombstone-store")
+					}
+				}
 				f.m.VerifTickDR()
 				atts, err := r.collect()
 				if err != nil {
